@@ -560,6 +560,28 @@ class HInterp:
             return outs
         if isinstance(s, ast.For):
             return self.loop(s, p)
+        if isinstance(s, ast.While):
+            # `i = 0 ... while i < n: body; i += 1`  is  `for i in range(n): body`
+            t = s.test
+            if isinstance(t, ast.Compare) and len(t.ops) == 1 and isinstance(t.ops[0], ast.Lt) and isinstance(t.left, ast.Name) and s.body and not s.orelse:
+                iv = t.left.id
+                last = s.body[-1]
+                inc = isinstance(last, ast.AugAssign) and isinstance(last.op, ast.Add) and isinstance(last.target, ast.Name) and last.target.id == iv
+                others = [x for b in s.body[:-1] for x in ast.walk(b) if isinstance(x, ast.Name) and x.id == iv and isinstance(x.ctx, ast.Store)]
+                esc = [x for x in ast.walk(s) if isinstance(x, (ast.Break, ast.Continue))]
+                start = p.env.get(iv)
+                try:
+                    zero = start is not None and not isinstance(start, (BytesV, BlocksV)) and nf(start) == ("c", 0)
+                    one = inc and nf(self.ev(last.value, p)) == ("c", 1)
+                except (AnalysisError, HUndecided, TypeError):
+                    zero = one = False
+                if inc and one and zero and not others and not esc:
+                    f = ast.copy_location(ast.For(target=ast.Name(id=iv, ctx=ast.Store()),
+                                                  iter=ast.Call(func=ast.Name(id="range", ctx=ast.Load()), args=[t.comparators[0]], keywords=[]),
+                                                  body=s.body[:-1] or [ast.Pass()], orelse=[]), s)
+                    ast.fix_missing_locations(f)
+                    return self.loop(f, p)
+            raise HUndecided("statement `%s`" % unparse(s, 50))
         if isinstance(s, ast.Pass):
             return [("fall", p, None)]
         raise HUndecided("statement `%s`" % unparse(s, 50))
